@@ -526,7 +526,7 @@ func init() {
 
 // aggHelperAdds holds a helper that receives one projection of the three shares to the standard of AggregateShares:
 // every ring operation that writes its third share adds the same component of the two others.
-func aggHelperAdds(info *types.Info, fd *ast.FuncDecl, params []types.Object) (int, []string) {
+func aggHelperAdds(info *types.Info, fd *ast.FuncDecl, params []types.Object, bound map[types.Object]*types.Func) (int, []string) {
 	views := map[types.Object]ast.Expr{}
 	ast.Inspect(fd.Body, func(nd ast.Node) bool {
 		if as, ok := nd.(*ast.AssignStmt); ok && as.Tok == token.DEFINE && len(as.Lhs) == len(as.Rhs) {
@@ -545,8 +545,26 @@ func aggHelperAdds(info *types.Info, fd *ast.FuncDecl, params []types.Object) (i
 		if !ok || len(call.Args) < 2 {
 			return true
 		}
-		sel, ok := unparen(call.Fun).(*ast.SelectorExpr)
-		if !ok {
+		var rt *types.Named
+		opName := ""
+		if sel, ok := unparen(call.Fun).(*ast.SelectorExpr); ok {
+			rt, opName = namedOf(info.TypeOf(sel.X)), sel.Sel.Name
+		} else if id, ok := unparen(call.Fun).(*ast.Ident); ok {
+			// the operation is a parameter of the helper, bound by the caller to a method value of a ring
+			fn := bound[info.Uses[id]]
+			if fn == nil {
+				if v, ok := info.Uses[id].(*types.Var); ok {
+					fn = localFnVals[v]
+				}
+			}
+			if fn == nil {
+				return true
+			}
+			opName = fn.Name()
+			if sig, ok := fn.Type().(*types.Signature); ok && sig.Recv() != nil {
+				rt = namedOf(sig.Recv().Type())
+			}
+		} else {
 			return true
 		}
 		last := call.Args[len(call.Args)-1]
@@ -554,12 +572,11 @@ func aggHelperAdds(info *types.Info, fd *ast.FuncDecl, params []types.Object) (i
 		if pi != 2 || !polyish(info.TypeOf(last)) {
 			return true
 		}
-		rt := namedOf(info.TypeOf(sel.X))
 		if rt == nil || rt.Obj().Name() != "Ring" {
 			return true
 		}
-		if (sel.Sel.Name != "Add" && sel.Sel.Name != "AddLazy") || len(call.Args) != 3 {
-			problems = append(problems, fmt.Sprintf("%s (in helper %s) writes the output share with %s instead of Add", exprString(call), fd.Name.Name, sel.Sel.Name))
+		if (opName != "Add" && opName != "AddLazy") || len(call.Args) != 3 {
+			problems = append(problems, fmt.Sprintf("%s (in helper %s) writes the output share with %s instead of Add", exprString(call), fd.Name.Name, opName))
 			return true
 		}
 		p0, r0 := aggProjection(info, call.Args[0], params, views, 0)
@@ -616,7 +633,25 @@ func aggHelperDelegation(c *core.Ctx, info *types.Info, call *ast.CallExpr, name
 				continue
 			}
 			triple := []types.Object{hparams[idx[0]], hparams[idx[1]], hparams[idx[2]]}
-			na, probs := aggHelperAdds(hpk.TypesInfo, hfd, triple)
+			// function-typed parameters the caller binds to a method value (`addFirstComponents(ringQP.Add, s1, s2, s3)`)
+			bound := map[types.Object]*types.Func{}
+			for ai, a := range call.Args {
+				if ai >= len(hparams) {
+					break
+				}
+				if se, ok := unparen(a).(*ast.SelectorExpr); ok {
+					if sl := info.Selections[se]; sl != nil && sl.Kind() == types.MethodVal {
+						if fn, ok := sl.Obj().(*types.Func); ok {
+							bound[hparams[ai]] = fn
+						}
+					}
+				} else if id, ok := unparen(a).(*ast.Ident); ok {
+					if v, ok := info.Uses[id].(*types.Var); ok && localFnVals[v] != nil {
+						bound[hparams[ai]] = localFnVals[v]
+					}
+				}
+			}
+			na, probs := aggHelperAdds(hpk.TypesInfo, hfd, triple, bound)
 			if na > 0 && len(probs) == 0 {
 				*nAdds += na
 				covered[firstField(hp[2])] = true
